@@ -16,6 +16,7 @@ from ..model import FunctionInfo, AnalysisError, dotted
 from ..report import Ctx
 from ..tensor import Typer, kwarg_t, const_int
 from ..util import norm, fn_body_nodes, walk_local, kwarg
+from ..pat import Snips
 from .common import arg_permutation_rule, names_in, calls_named
 from .c07 import items_loop_info, enclosing_loops
 
@@ -53,19 +54,27 @@ def rule_backup(ctx: Ctx, typer: Typer):
                             hits += 1
         ctx.check(hits > 0, "BEL-1", f, f.node, f"backup: {arr} is multiplied by the non-absorbing mask", "",
                   f"`{arr}` reaches the backup without being masked by ~absorbing_state_vec: absorbing states would keep rewards / transitions")
-    # every use of tf / sa_rf in an einsum or sum is the masked one: the masked definition is the only one reaching the loop
+    # ---- roles of the locals, bound by what they are (never by how they are spelled)
+    S = Snips(f)
+    pomdp = f.positional_params[0]
+    bset = f.positional_params[1]
+    eps = f.positional_params[2]
     cfg = cfg_of(f)
     loops = [n_ for n_ in fn_body_nodes(f) if isinstance(n_, ast.For)]
     if not loops:
         raise AnalysisError("point_based_value_iteration: backup loop vanished")
     lp = loops[0]
     ln = cfg.node_for(lp)
-    for var in ("tf", "sa_rf"):
-        ds = cfg.reaching(ln, var)
-        ok = bool(ds) and all(d.value is not None and "nt[" in ast.unparse(d.value) for d in ds)
-        ctx.check(ok if ds else None, "BEL-1", f, lp, f"backup loop sees only the masked `{var}`", "", f"an unmasked definition of `{var}` reaches the backup loop")
-    # discount degree on the combined alpha vectors
-    bsa = [n_ for n_ in ast.walk(lp) if isinstance(n_, ast.Assign) and isinstance(n_.targets[0], ast.Name) and n_.targets[0].id == "bsa_vf"]
+    R = backup_roles(f, S, cfg, lp)
+    # every use of the transition / reward tensor in an einsum or sum is the masked one: the masked definition is the only one reaching the loop
+    mask = R.get("mask")
+    for role, what in (("tf", "transition tensor"), ("rf", "reward tensor")):
+        var = R.get(role)
+        ds = cfg.reaching(ln, var) if var else []
+        ok = bool(ds) and mask is not None and all(d.value is not None and S.has("nt[ANY]", {"nt": mask}, within=d.value) for d in ds)
+        ctx.check(ok if ds else None, "BEL-1", f, lp, f"backup loop sees only the masked {what}", "", f"an unmasked definition of the {what} reaches the backup loop")
+    # discount degree on the combined alpha vectors (the array the new alpha vectors are selected from)
+    bsa = _assigns_in(lp, R.get("bsa"))
     if bsa:
         t = X.expr(f, bsa[0].value)
         ms = monomials(t)
@@ -79,37 +88,103 @@ def rule_backup(ctx: Ctx, typer: Typer):
         if not fut:
             # the future term is an einsum over previously computed arrays: count the discount syntactically
             src = ast.unparse(bsa[0].value)
-            ctx.check(src.count("discount_rate") == 1 and "sa_rf" in src, "BEL-2", f, bsa[0], "backup: alpha = reward + gamma * future", src, f"combined alpha vector is `{src}`")
+            n_disc = sum(1 for x in ast.walk(bsa[0].value) if (isinstance(x, ast.Attribute) and x.attr == "discount_rate") or (isinstance(x, ast.Name) and x.id == "discount_rate"))
+            ctx.check(n_disc == 1 and R.get("rf") is not None and R["rf"] in names_in(bsa[0].value), "BEL-2", f, bsa[0], "backup: alpha = reward + gamma * future", src, f"combined alpha vector is `{src}`")
     else:
-        ctx.unknown("BEL-2", f, lp, "backup combination", "bsa_vf not found")
+        ctx.unknown("BEL-2", f, lp, "backup combination", "the array the new alpha vectors are selected from was not found")
     # action selection
-    for var, axis_role in (("ba_vf_max_idx", "A"),):
-        d = [n_ for n_ in ast.walk(lp) if isinstance(n_, ast.Assign) and isinstance(n_.targets[0], ast.Name) and n_.targets[0].id == var]
-        if d and isinstance(d[0].value, ast.Call) and isinstance(d[0].value.func, ast.Attribute) and d[0].value.func.attr == "argmax":
-            recv = X.expr(f, d[0].value.func.value)
-            r = typer.roles(recv)
-            ax = kwarg(d[0].value, "axis") or (d[0].value.args[0] if d[0].value.args else None)
-            k = ax.value if isinstance(ax, ast.Constant) else None
-            ok = (r[k] == axis_role) if (r is not None and k is not None and -len(r) <= k < len(r)) else None
-            ctx.check(ok, "SEL-1", f, d[0], f"best action alpha vector chosen by argmax over the action axis", f"roles {r}", f"argmax reduces axis {k} of {r}, not the action axis")
-    sel = [n_ for n_ in ast.walk(lp) if isinstance(n_, ast.Assign) and isinstance(n_.targets[0], ast.Name) and n_.targets[0].id == "new_bv"]
-    if sel:
-        ok = ast.unparse(sel[0].value).replace(" ", "") == "bsa_vf[count_b,:,ba_vf_max_idx]"
-        ctx.check(ok if ok else None, "SEL-1", f, sel[0], "new alpha vector of belief b = its own best action's alpha vector", "", "idiom not recognised")
+    d = _assigns_in(lp, R.get("idx"))
+    if d and isinstance(d[0].value, ast.Call) and isinstance(d[0].value.func, ast.Attribute) and d[0].value.func.attr == "argmax":
+        recv = X.expr(f, d[0].value.func.value)
+        r = typer.roles(recv)
+        ax = kwarg(d[0].value, "axis") or (d[0].value.args[0] if d[0].value.args else None)
+        k = ax.value if isinstance(ax, ast.Constant) else None
+        ok = (r[k] == "A") if (r is not None and k is not None and -len(r) <= k < len(r)) else None
+        ctx.check(ok, "SEL-1", f, d[0], f"best action alpha vector chosen by argmax over the action axis", f"roles {r}", f"argmax reduces axis {k} of {r}, not the action axis")
+    sel = R.get("sel")
+    if sel is not None:
+        # new_bv = bsa_vf[count_b, :, ba_vf_max_idx]: row index = position of the belief, last index = that belief's best action
+        ok = R.get("bsa") is not None and R.get("idx") is not None and R.get("cnt_ok", False) and R.get("idx_ok", False)
+        ctx.check(ok if ok else None, "SEL-1", f, sel, "new alpha vector of belief b = its own best action's alpha vector", "", "idiom not recognised")
     # stop rule
     brk = [n_ for n_ in ast.walk(lp) if isinstance(n_, ast.If) and any(isinstance(b, ast.Break) for b in n_.body)]
+    bv, new_bv, bb = R.get("bv"), R.get("new_bv"), R.get("bb")
     if brk:
         t = brk[0].test
-        ok = isinstance(t, ast.Compare) and isinstance(t.ops[0], ast.Lt) and ast.unparse(t.comparators[0]) == "value_convergence_epsilon"
-        ctx.check(ok, "STOP-1", f, brk[0], "backup stops when the value change is below value_convergence_epsilon", "", f"stop test is `{norm(t)}`")
-        dl = [n_ for n_ in ast.walk(lp) if isinstance(n_, ast.Assign) and isinstance(n_.targets[0], ast.Name) and n_.targets[0].id == ast.unparse(t.left)]
-        ok = bool(dl) and "np.abs(old_v - new_v).max()" == ast.unparse(dl[0].value)
+        ok = isinstance(t, ast.Compare) and isinstance(t.ops[0], ast.Lt) and ast.unparse(t.comparators[0]) == eps
+        ctx.check(ok, "STOP-1", f, brk[0], f"backup stops when the value change is below {eps}", "", f"stop test is `{norm(t)}`")
+        dl = _assigns_in(lp, t.left.id) if isinstance(t, ast.Compare) and isinstance(t.left, ast.Name) else []
+        ok = False
+        if dl and bv and new_bv and bb:
+            # delta = np.abs(old_v - new_v).max(), old_v / new_v = values of the belief set under the current / the new alpha vectors
+            env0 = {"delta": t.left.id, "bv": bv, "new_bv": new_bv, "bb": bb}
+            for diff in ("old_v - new_v", "new_v - old_v"):
+                if S.solve([f"delta = np.abs({diff}).max()", "old_v = np.einsum(E_s1, bv, bb)", "new_v = np.einsum(E_s2, new_bv, bb)"], env0, within=lp):
+                    ok = True
         ctx.check(ok if ok else None, "STOP-1", f, dl[0] if dl else brk[0], "change = max |V_old(b) - V_new(b)| over the belief set", "", "idiom not recognised")
-        upd = [n_ for n_ in lp.body if isinstance(n_, ast.Assign) and ast.unparse(n_.targets[0]) == "bv" and ast.unparse(n_.value) == "new_bv"]
+        upd = [n_ for n_ in lp.body if bv and new_bv and S.m("bv = new_bv", n_, {"bv": bv, "new_bv": new_bv}) is not None]
         ctx.check(bool(upd) and lp.body.index(upd[0]) > lp.body.index(brk[0]), "STOP-1", f, upd[0] if upd else lp, "alpha vectors advance after the convergence test", "", "alpha vectors are not advanced to the new backup")
     else:
         ctx.violation("STOP-1", f, lp, "backup convergence test", "no convergence test breaks the backup loop")
     return f
+
+
+def _assigns_in(root: ast.AST, name: Optional[str]) -> List[ast.Assign]:
+    if not name:
+        return []
+    return [n_ for n_ in ast.walk(root) if isinstance(n_, ast.Assign) and isinstance(n_.targets[0], ast.Name) and n_.targets[0].id == name]
+
+
+def carried_names(f: FunctionInfo, cfg, lp: ast.For) -> List[str]:
+    """loop-carried variables of `lp`: names assigned by a plain statement of the loop body that also have a definition
+    from before the loop reaching its head (the value of one pass is the input of the next)."""
+    ln = cfg.node_for(lp)
+    inside = {id(x) for x in ast.walk(lp)}
+    out: List[str] = []
+    for st in lp.body:
+        if isinstance(st, ast.Assign) and len(st.targets) == 1 and isinstance(st.targets[0], ast.Name):
+            v = st.targets[0].id
+            if v not in out and any(d.stmt is not None and id(d.stmt) not in inside for d in cfg.reaching(ln, v)):
+                out.append(v)
+    return out
+
+
+def backup_roles(f: FunctionInfo, S: Snips, cfg, lp: ast.For) -> Dict[str, object]:
+    """role -> actual local name in point_based_value_iteration.
+    tf / rf  : the names the POMDP's transition / state-action reward tensor are bound to
+    mask     : the name bound to ~pomdp.absorbing_state_vec...
+    bb       : the belief set as used in the loop (the parameter or its alias); cnt: arange over it
+    bv       : the loop-carried alpha vectors; new_bv: what they advance to; bsa / cnt / idx: new_bv = bsa[cnt, :, idx]"""
+    pomdp, bset = f.positional_params[0], f.positional_params[1]
+    R: Dict[str, object] = {}
+    for role, attr in (("tf", "transition_matrix"), ("rf", "state_action_reward_matrix")):
+        _, e = S.first(f"arr = {pomdp}.{attr}")
+        if e:
+            R[role] = e["arr"]
+    for n_, e in S.find("nt = E_v"):
+        if S.has(f"{pomdp}.absorbing_state_vec", within=e["v"]):
+            R["mask"] = e["nt"]
+            break
+    _, e = S.first(f"bb = {bset}")
+    R["bb"] = e["bb"] if e else bset
+    car = carried_names(f, cfg, lp)
+    if len(car) == 1:
+        R["bv"] = car[0]
+        adv = [n_ for n_ in lp.body if S.m("bv = new_bv", n_, {"bv": car[0]}) is not None]
+        if adv:
+            R["new_bv"] = S.m("bv = new_bv", adv[-1], {"bv": car[0]})["new_bv"]
+            sel, e = S.first("new_bv = bsa[cnt, :, idx]", {"new_bv": R["new_bv"]}, within=lp)
+            if sel is not None:
+                R["sel"] = sel
+                R["bsa"], R["idx"] = e["bsa"], e["idx"]
+                R["cnt_ok"] = S.has("cnt = np.arange(len(bb))", {"cnt": e["cnt"], "bb": R["bb"]}) and not _assigns_in(lp, e["cnt"])
+                # the selecting index is the argmax of the values of those same per-action alpha vectors at the beliefs
+                R["idx_ok"] = S.solve(["idx = ba.argmax(axis=ANY)", "ba = np.einsum(ANY, bsa, bb)"], {"idx": e["idx"], "bsa": e["bsa"], "bb": R["bb"]}, within=lp) is not None
+            else:
+                cand = _assigns_in(lp, R["new_bv"])
+                if cand:
+                    R["sel"] = cand[0]
+    return R
 
 
 def rule_cfg2(ctx: Ctx, f: FunctionInfo):
@@ -149,7 +224,9 @@ def rule_cfg2(ctx: Ctx, f: FunctionInfo):
                 for nm in ast.walk(st):
                     if isinstance(nm, ast.Name) and isinstance(nm.ctx, ast.Load) and nm.id in only_inside and nm.id not in after_uses:
                         after_uses.append(nm.id)
-        inst = f"names bound only in `for {ast.unparse(lp.target)} in range({nvar})` are read after the loop"
+        # the instance names the loop by its trip count only when that is a parameter (part of the interface); locals are not spelled out
+        trip = nvar if nvar in f.param_names else "<trip count computed in the function>"
+        inst = f"names bound only in the `for _ in range({trip})` loop are read after the loop"
         if after_uses and not clamp:
             ctx.violation("CFG-2", f, lp, inst,
                           f"`{nvar}` is computed inside the function (`{norm(computed[0].value, 60)}`) without a positive lower clamp; when it is <= 0 the "
@@ -163,26 +240,40 @@ def rule_wiring(ctx: Ctx):
     P = ctx.P
     C = P.cls("PointBasedValueIteration")
     po = C.methods["plan_on"]
-    src = ast.unparse(po.node)
-    ok = "AlphaVectorPolicy(pomdp, res['alpha_vectors'])" in src and "res = self._solve(pomdp)" in src
-    ctx.check(ok, "WIRE-1", po, po.node, "returned policy is built from the solver's alpha vectors on the given POMDP", "", "policy is not built from the returned alpha vectors")
-    ok = "alpha_vectors=res['alpha_vectors']" in src and "belief_set=res['belief_set']" in src
+    pomdp = po.positional_params[1]
+    SP = Snips(po)
+    sol = SP.solve([f"res = self._solve({pomdp})", f"pi = AlphaVectorPolicy({pomdp}, res['alpha_vectors'])", "return Result(policy=pi, REST=ANY)"])
+    ctx.check(sol is not None, "WIRE-1", po, po.node, "returned policy is built from the solver's alpha vectors on the given POMDP", "", "policy is not built from the returned alpha vectors")
+    r0 = SP.first(f"res = self._solve({pomdp})")[1]
+    ok = r0 is not None and SP.has("return Result(alpha_vectors=res['alpha_vectors'], belief_set=res['belief_set'], REST=ANY)", r0)
     ctx.check(ok, "WIRE-1", po, po.node, "reported alpha_vectors / belief_set are the solver's", "", "reported arrays are not the solver's")
     sv = C.methods["_solve"]
+    spomdp = sv.positional_params[1]
+    SS = Snips(sv)
     calls = calls_named(sv, "point_based_value_iteration")
-    ok = bool(calls) and ast.unparse(kwarg(calls[0], "value_convergence_epsilon")) == "self.value_convergence_epsilon" and ast.unparse(kwarg(calls[0], "horizon")) == "self.horizon" \
-        and [ast.unparse(a) for a in calls[0].args] == ["pomdp", "belief_set"]
+    # the belief set of _solve: the local that starts as an array and is grown by expand_beliefs; its start must be [initial belief]
+    grown = SS.solve(["bs = np.array(ANY)", f"bs = expand_beliefs({spomdp}, bs)"])
+    bs_env = SS.solve([f"s0 = {spomdp}.initial_state_vec", "bs = np.array([s0])"], {"bs": grown[0]["bs"]}) if grown else None
+    call_stmt, ce = SS.first(f"res = point_based_value_iteration({spomdp}, bs, value_convergence_epsilon=self.value_convergence_epsilon, horizon=self.horizon)",
+                             {"bs": grown[0]["bs"]} if grown else None)
+    ok = bool(calls) and call_stmt is not None and grown is not None and call_stmt.value is calls[0]
     ctx.check(ok, "WIRE-1", sv, calls[0] if calls else sv.node, "configured threshold and horizon reach the backup; it runs on the current belief set", "", "configured threshold / horizon / belief set do not reach the backup")
     rets = [n for n in fn_body_nodes(sv) if isinstance(n, ast.Return)]
-    ok = bool(rets) and ast.unparse(rets[0].value) == "res"
+    res_n = None
+    for n in fn_body_nodes(sv):
+        if isinstance(n, ast.Assign) and calls and n.value is calls[0] and isinstance(n.targets[0], ast.Name):
+            res_n = n.targets[0].id
+    ok = bool(rets) and res_n is not None and isinstance(rets[0].value, ast.Name) and rets[0].value.id == res_n
     ctx.check(ok, "WIRE-1", sv, rets[0] if rets else sv.node, "the result of the last backup is returned", "", "a stale result is returned")
-    init = [n for n in fn_body_nodes(sv) if isinstance(n, ast.Assign) and ast.unparse(n.targets[0]) == "belief_set" and "s0" in ast.unparse(n.value)]
-    s0 = [n for n in fn_body_nodes(sv) if isinstance(n, ast.Assign) and ast.unparse(n.targets[0]) == "s0"]
-    ok = bool(init) and bool(s0) and ast.unparse(s0[0].value) == "pomdp.initial_state_vec"
-    ctx.check(ok, "WIRE-1", sv, init[0] if init else sv.node, "belief set starts from the initial belief", "", "belief set does not start from the POMDP's initial state vector")
+    ctx.check(bs_env is not None, "WIRE-1", sv, bs_env[1][1] if bs_env else sv.node, "belief set starts from the initial belief", "", "belief set does not start from the POMDP's initial state vector")
     f = P.fn("point_based_value_iteration")
     r = [n for n in fn_body_nodes(f) if isinstance(n, ast.Return)]
-    ok = bool(r) and isinstance(r[0].value, ast.Dict) and dict(zip([ast.unparse(k) for k in r[0].value.keys], [ast.unparse(v) for v in r[0].value.values])).get("'alpha_vectors'") == "bv"
+    loops = [n for n in fn_body_nodes(f) if isinstance(n, ast.For)]
+    car = carried_names(f, cfg_of(f), loops[0]) if loops else []
+    av = None
+    if r and isinstance(r[0].value, ast.Dict):
+        av = next((v for k, v in zip(r[0].value.keys, r[0].value.values) if isinstance(k, ast.Constant) and k.value == "alpha_vectors"), None)
+    ok = isinstance(av, ast.Name) and len(car) == 1 and av.id == car[0]
     ctx.check(ok, "WIRE-1", f, r[0] if r else f.node, "alpha_vectors are the converged per-belief alpha vectors", "", "alpha_vectors key does not hold the backed-up alpha vectors")
 
 
@@ -251,11 +342,11 @@ def rule_qmdp(ctx: Ctx):
     else:
         ctx.unknown("QMDP-1", av, av.node, "QMDP action value", "idiom not recognised")
     v = C.methods["value"]
-    src = ast.unparse(v.node)
-    ctx.check("max([self.action_value(b, a) for a in self.pomdp.action_list])" in src, "QMDP-1", v, v.node, "QMDP value = max over actions of its action value", "", "value is not the max of the action values")
+    vb = v.positional_params[1]
+    ctx.check(Snips(v).has(f"max([self.action_value({vb}, a) for a in self.pomdp.action_list])"), "QMDP-1", v, v.node, "QMDP value = max over actions of its action value", "", "value is not the max of the action values")
     po = P.cls("qmdp.QMDP").methods["plan_on"]
-    src = ast.unparse(po.node)
-    ok = "self.mdp_solver.plan_on(pomdp)" in src and "sa_values = mdp_res.action_value" in src and "QMDPPolicy(pomdp, sa_values)" in src
+    qp = po.positional_params[1]
+    ok = Snips(po).solve([f"mdp_res = self.mdp_solver.plan_on({qp})", "sa_values = mdp_res.action_value", f"QMDPPolicy({qp}, sa_values)"]) is not None
     ctx.check(ok, "QMDP-1", po, po.node, "Q_MDP is the action_value of the MDP solver's result on the same problem", "", "Q_MDP wiring changed")
     init = C.methods["__init__"]
     ctx.check("self.sa_values = stateaction_values" in ast.unparse(init.node), "QMDP-1", init, init.node, "policy stores the given state-action values", "", "state-action values are not stored")
